@@ -1076,14 +1076,21 @@ def npAllClose (atol : Rat) (a b : List Rat) : Option Bool :=
     | _, [y] => some (a.all fun x => decide (x - y ≤ atol) && decide (y - x ≤ atol))
     | _, _ => none
 
-/-- `A.approx_equals(B, atol)` for two DISTINCT interval products as coded:
-`np.allclose(self.min_pt, other.min_pt, atol=atol, rtol=0.0) and np.allclose(self.max_pt,
-other.max_pt, …)` — there is NO `ndim` guard (finding C20-F18), so NumPy broadcasting applies
-(`none` = raises `ValueError`). -/
-def intervalApproxEq (atol : Rat) (lo hi lo' hi' : List Rat) : Option Bool :=
+/-- OLD `IntervalProd.approx_equals` (before /repo b059927), kept for the sensitivity theorem and
+as the equal-dimension core of the current definition: `np.allclose(self.min_pt, other.min_pt,
+atol=atol, rtol=0.0) and np.allclose(self.max_pt, other.max_pt, …)` WITHOUT an `ndim` guard
+(finding C20-F18), so NumPy broadcasting applied (`none` = raised `ValueError`). -/
+def intervalApproxEqOld (atol : Rat) (lo hi lo' hi' : List Rat) : Option Bool :=
   match npAllClose atol lo lo' with
   | none => none
   | some false => some false
   | some true => npAllClose atol hi hi'
+
+/-- `A.approx_equals(B, atol)` for two DISTINCT interval products as coded since /repo b059927
+(the repair of C20-F18): `self.ndim == other.ndim and np.allclose(min_pt …) and
+np.allclose(max_pt …)` — interval products of different dimension are never approximately
+equal and the comparison cannot raise (`ndim = len(min_pt)`). -/
+def intervalApproxEq (atol : Rat) (lo hi lo' hi' : List Rat) : Option Bool :=
+  if lo.length = lo'.length then intervalApproxEqOld atol lo hi lo' hi' else some false
 
 end OdlModel.Spaces
